@@ -99,13 +99,24 @@ def _float_assertion_to_cst(
     )
 
 
+def _make_int_literal(value: int) -> cst.BaseExpression:
+    try:
+        digits = str(abs(value))
+    except ValueError:
+        # Exceeds the limit for int->str conversion, which does not apply to hex.
+        digits = hex(abs(value))
+    if value < 0:
+        return cst.UnaryOperation(operator=cst.Minus(), expression=cst.Integer(digits))
+    return cst.Integer(digits)
+
+
 def _make_float_literal(value: float) -> cst.BaseExpression:
     if math.isnan(value):
         return cst.Call(func=cst.Name("float"), args=[cst.Arg(value=cst.SimpleString("'nan'"))])
     if math.isinf(value):
         literal = "'inf'" if value > 0 else "'-inf'"
         return cst.Call(func=cst.Name("float"), args=[cst.Arg(value=cst.SimpleString(literal))])
-    if value < 0:
+    if math.copysign(1.0, value) < 0:  # also true for -0.0
         return cst.UnaryOperation(operator=cst.Minus(), expression=cst.Float(str(-value)))
     return cst.Float(str(value))
 
@@ -152,10 +163,8 @@ def _value_to_cst(value: Any) -> cst.BaseExpression:  # noqa: C901
         return cst.Name("None")
     if isinstance(value, bool):
         return cst.Name("True" if value else "False")
-    if isinstance(value, int):
-        if value < 0:
-            return cst.UnaryOperation(operator=cst.Minus(), expression=cst.Integer(str(-value)))
-        return cst.Integer(str(value))
+    if isinstance(value, int) and not tu.is_enum(type(value)):
+        return _make_int_literal(value)
     if isinstance(value, float):
         return _make_float_literal(value)
     if isinstance(value, str):
@@ -163,12 +172,26 @@ def _value_to_cst(value: Any) -> cst.BaseExpression:  # noqa: C901
     if isinstance(value, bytes):
         return cst.SimpleString(repr(value))
     if isinstance(value, complex):
-        return cst.SimpleString(repr(value))
+        return cst.Call(
+            func=cst.Name("complex"),
+            args=[
+                cst.Arg(value=_make_float_literal(value.real)),
+                cst.Arg(value=_make_float_literal(value.imag)),
+            ],
+        )
     if tu.is_enum(type(value)):
-        # EnumClass.MEMBER
-        class_name = type(value).__name__
+        # EnumClass.MEMBER, or Outer.EnumClass.MEMBER for nested classes
+        first, *rest = type(value).__qualname__.split(".")
+        if "<locals>" in rest:
+            first, rest = type(value).__name__, []  # not importable, keep it renderable
+        enum_class: cst.BaseExpression = cst.Name(first)
+        for part in rest:
+            enum_class = cst.Attribute(value=enum_class, attr=cst.Name(part))
         member_name = value.name
-        return cst.Attribute(value=cst.Name(class_name), attr=cst.Name(member_name))
+        if member_name is None or not member_name.isidentifier():
+            # E.g., combined members of a Flag have no canonical name: EnumClass(value)
+            return cst.Call(func=enum_class, args=[cst.Arg(value=_value_to_cst(value.value))])
+        return cst.Attribute(value=enum_class, attr=cst.Name(member_name))
     typ = type(value)
     if tu.is_list(typ):
         return cst.List(elements=[cst.Element(value=_value_to_cst(v)) for v in value])
